@@ -1001,7 +1001,7 @@ func (g *c04Gen) sortedCase(kind string, thorough bool) *c04Case {
 		cs.NameCol, cs.BegCol, cs.EndCol = int32(rnd.rng(0, 9)), int32(rnd.rng(0, 9)), int32(rnd.rng(0, 9))
 		cs.Meta = int32(rnd.pick([]int{'#', '@', 0, 0x263a}))
 		cs.Skip = int32(rnd.pick([]int{0, 1, 7, 1 << 20}))
-		pool := []string{"chr1", "chr2", "chrX", "1", "contig_000017", "MT", "*", "a b"}
+		pool := []string{"chr1", "chr2", "chrX", "1", "contig_000017", "MT", "*", "a b", ""} // incl. the empty name (a lone NUL in the name block)
 		for i := len(pool) - 1; i > 0; i-- {
 			j := rnd.intn(i + 1)
 			pool[i], pool[j] = pool[j], pool[i]
